@@ -17,6 +17,7 @@ func init() {
 		ruleS17_2(c, "C17.S2")
 		ruleS17_3(c, "C17.S3")
 		ruleS17_4(c, "C17.S4")
+		ruleS17_5(c, "C17.S5")
 		ruleV1x(c, "C17.V1", []string{"simple.MakeFh"}, 1)
 		ruleV5(c, "C17.V5")
 	}
@@ -453,13 +454,13 @@ func ruleS17_2(c *Ctx, id string) {
 							}
 						}
 					}
-					if hasParam && hasDiff {
+					if hasParam && hasDiff && clampSelected(sc, phi, rd.Params[3], offset, rd.Params[0]) {
 						clamp = true
 					}
 				}
 			}
 		}
-		R.Check(clamp, id, "simple.Read|count clamped to Size-offset", P.Pos(cr.Pos()), "the number of bytes copied is min(count, Size-offset)", "clamp phi present", "a large count reads beyond the file's size (other bytes of the block, or out of range)")
+		R.Check(clamp, id, "simple.Read|count clamped to Size-offset", P.Pos(cr.Pos()), "the number of bytes copied is min(count, Size-offset): the smaller one is chosen by comparing count with Size-offset", "clamp phi selected by count > Size-offset", "a large count reads beyond the file's size (other bytes of the block, or out of range)")
 	}
 }
 
@@ -717,4 +718,151 @@ func ruleS17_4(c *Ctx, id string) {
 		}
 	}
 	R.Check(okRead && onlyData && n > 0, id, "simple.inodeInit|keeps what the inodes hold", P.Pos(init.Pos()), "inodeInit writes back inodes obtained from ReadInode and stores only their Data field", fmt.Sprintf("%d WriteInode calls on inodes that were read; only Data assigned", n), "MakeNfs runs inodeInit on every start: building the inodes afresh resets every file's size, acknowledged writes do not survive a restart")
+}
+
+// clampSelected: the phi (count, Size-offset) of scope sc takes its Size-offset
+// edge exactly under a comparison of count with that same difference (count >
+// Size-offset, or a mirrored/negated form), and its count edge otherwise.
+func clampSelected(sc Scope, phi *ssa.Phi, count, offset, recv ssa.Value) bool {
+	ctx := &symCtx{recv: recv}
+	fn := sc.Fn
+	pb := phi.Block()
+	for _, b := range fn.Blocks {
+		ifi, ok := b.Instrs[len(b.Instrs)-1].(*ssa.If)
+		if !ok {
+			continue
+		}
+		bo, ok := ifi.Cond.(*ssa.BinOp)
+		if !ok {
+			continue
+		}
+		var other ssa.Value
+		op := bo.Op
+		if sc.S.resolve(bo.X) == count {
+			other = bo.Y
+		} else if sc.S.resolve(bo.Y) == count {
+			other = bo.X
+			switch op { // mirror
+			case token.GTR:
+				op = token.LSS
+			case token.GEQ:
+				op = token.LEQ
+			case token.LSS:
+				op = token.GTR
+			case token.LEQ:
+				op = token.GEQ
+			}
+		} else {
+			continue
+		}
+		var diffSucc, cntSucc *ssa.BasicBlock
+		switch op {
+		case token.GTR, token.GEQ: // count > d: take d
+			diffSucc, cntSucc = b.Succs[0], b.Succs[1]
+		case token.LSS, token.LEQ: // count < d: keep count
+			diffSucc, cntSucc = b.Succs[1], b.Succs[0]
+		default:
+			continue
+		}
+		want := sym(ctx, other, sc.S, 0)
+		okAll := true
+		for i, e := range phi.Edges {
+			pred := pb.Preds[i]
+			from := func(succ *ssa.BasicBlock) bool {
+				// the edge comes from the side succ of the test
+				if succ == pb {
+					return pred == b
+				}
+				return len(succ.Preds) == 1 && succ.Dominates(pred)
+			}
+			isDiff := false
+			if d, ok := stripConv(sc.S.resolve(e)).(*ssa.BinOp); ok && d.Op == token.SUB {
+				isDiff = sym(ctx, e, sc.S, 0) == want
+			}
+			switch {
+			case sc.S.resolve(e) == count:
+				if !from(cntSucc) {
+					okAll = false
+				}
+			case isDiff:
+				if !from(diffSucc) {
+					okAll = false
+				}
+			default:
+				okAll = false
+			}
+		}
+		if okAll {
+			return true
+		}
+	}
+	return false
+}
+
+// ruleS17_5: the only mutual exclusion in SimpleNFS is the lock of one inode
+// number.  It protects a transaction's read-modify-write only if every journal
+// object the transaction reads or writes belongs to that inode alone: its
+// 128-byte slot of the inode block, or its own data block.  A larger object
+// (the whole inode block) is shared by all files: two transactions on different
+// files each commit their private copy and the later one reverts the other.
+func ruleS17_5(c *Ctx, id string) {
+	V, P, R := c.V, c.P, c.R
+	R.Rule(id, "every journal object a SimpleNFS request reads or writes belongs to one inode: INODESZ*8 bits at MkAddr(LOGSIZE, inum*INODESZ*8), or the whole block MkAddr(ip.Data, 0); nothing wider is read for update or marked dirty", 4)
+	const logsize, inodesz, nbit = 513, 128, 32768
+	n := 0
+	for _, fn := range P.RepoFuncs("simple") {
+		if fn.Blocks == nil {
+			continue
+		}
+		for _, call := range P.CallsIn(fn, funcIs(V.ReadBuf, V.OverWrite)) {
+			n++
+			R.Analysed[FuncName(fn)] = true
+			ctx := &symCtx{}
+			a := sym(ctx, argN(call, 0), Subst{}, 0)
+			sz, szOK := constInt(argN(call, 1))
+			key := FuncName(fn) + "|" + call.(*ssa.Call).Call.StaticCallee().Name() + " of an object of one inode"
+			okObj := false
+			form := "unknown"
+			mk := "call:" + strings.TrimPrefix(jrnlPath, modPath+"/") + "/addr.MkAddr("
+			if strings.HasPrefix(a, mk) && strings.HasSuffix(a, ")") {
+				args := splitArgs(a[len(mk) : len(a)-1])
+				if len(args) == 2 {
+					switch {
+					case args[0] == fmt.Sprint(logsize) && strings.HasPrefix(args[1], fmt.Sprintf("(* %d ", inodesz*8)) && szOK && sz == inodesz*8:
+						okObj, form = true, "inode slot"
+					case strings.HasPrefix(args[0], "field(") && strings.HasSuffix(args[0], ".Data)") && args[1] == "0" && szOK && sz == nbit:
+						okObj, form = true, "data block"
+					default:
+						form = a
+					}
+				}
+			} else {
+				form = a
+			}
+			R.Check(okObj, id, key, P.Pos(call.Pos()), "the object is the 128-byte slot of one inode or that inode's data block", form, fmt.Sprintf("the journal object %s (size %d bits) is not private to one inode: the inode lock does not protect it, and concurrent requests on different files overwrite each other's committed update", form, sz))
+		}
+	}
+	if n == 0 {
+		R.Fail(id, "simple|journal accesses", "", "SimpleNFS reads and writes through jrnl.Op", "no ReadBuf/OverWrite found in package simple")
+	}
+}
+
+// splitArgs splits a rendered argument list at top-level commas.
+func splitArgs(s string) []string {
+	var out []string
+	depth, start := 0, 0
+	for i, ch := range s {
+		switch ch {
+		case '(':
+			depth++
+		case ')':
+			depth--
+		case ',':
+			if depth == 0 {
+				out = append(out, s[start:i])
+				start = i + 1
+			}
+		}
+	}
+	return append(out, s[start:])
 }
